@@ -93,6 +93,29 @@ def run(ctx: Ctx, extended: bool = False) -> None:
                     reset_keys.append(key_bits(k1))
                     episode_starts.append(s2)
                 ws = ws2
+            # second phase on the SAME objects (stacked variant): the user changes a Python attribute the wrapped environment's reset reads and
+            # re-jits; every later automatic reset must be the wrapped environment's reset AS IT IS NOW (no reset captured at construction)
+            if stk and lasts >= 1:
+                env.fold = 4242
+                jreset, jstep = jax.jit(env.reset), jax.jit(env.step)
+                wstep = jax.jit(w.step)
+                seen_last = 0
+                for t in range(steps, 2 * steps):
+                    a = sample_action(env, rng)
+                    s1, t1 = jstep(ws, a)
+                    s2, t2 = jreset(jax.random.split(s1.key)[0])
+                    ws2, wt2 = wstep(ws, a)
+                    last = int(t1.step_type) == 2
+                    ctx.evaluations += 1
+                    if last:
+                        seen_last += 1
+                        if not tree_close(ws2, s2) or not tree_close(wt2.observation, t2.observation):
+                            ctx.fail(e.cid, "step_last:stale_reset", "after an attribute read by the wrapped environment's reset was changed (and step re-jitted), the automatic reset "
+                                     "still returns what the old reset produced: " + (first_diff(ws2, s2) or first_diff(wt2.observation, t2.observation)),
+                                     {**info, "t": t, "phase": 2})
+                            break
+                    ws = ws2
+                ctx.count("phase2_last_steps", seen_last)
             # fresh keys
             if len(set(reset_keys)) != len(reset_keys) and not e.meta.get("constant_generator"):
                 ctx.fail(e.cid, "fresh_keys", f"two automatic resets used the same key ({len(reset_keys)} resets, {len(set(reset_keys))} distinct keys)", info)
